@@ -31,6 +31,9 @@ Definition reset : state := mkSt [] 0.
 (* PutIntoFragmentBuffer *)
 Definition put (st : state) (bytes : list byte) : state := mkSt (buf st ++ bytes) (required st).
 
+(* if (header->PayloadSize > 0xFFFFFFFF - SizeOfHeader): the announced payload would wrap uint32 msgSize; not a message *)
+Definition oversize (payload : N) : bool := oversize_guard_bound - size_of_header <? payload.
+
 Section Conn.
   Variables p0 p1 : byte.     (* m_receiver_preamble_0, m_receiver_preamble_1 *)
 
@@ -67,6 +70,8 @@ Section Conn.
         | None => Fail OutOfBounds []
         | Some h =>
             let st1 := put st h in
+            if oversize (payload_size (buf st1)) then rec reset data    (* ResetFragmentation(); OnDataReceived(data, count); return; *)
+            else
             let msg_size := w32 (size_of_header + payload_size (buf st1)) in
             if total <? msg_size then
               match slice size_to_process (sub32 count size_to_process) data with
@@ -105,6 +110,7 @@ Section Conn.
   Definition handle_unfragmented (rec : state -> list byte -> outcome) (st : state) (data : list byte) : outcome :=
     let count := len data in
     if count <? size_of_header then Done (put st data) []
+    else if oversize (payload_size data) then rec st (drop 1 data)    (* OnDataReceived(addressof(data[1]), count - 1); return; *)
     else
       let msg_size := w32 (size_of_header + payload_size data) in
       if count <? msg_size then Done (mkSt (buf st ++ data) (sub32 msg_size count)) []
